@@ -331,6 +331,52 @@ def run_traffic(sc):
     return res
 
 
+def run_sized_frames(sc):
+    """Messages whose FRAMED length is an exact number of octets (multiples of the transport read size and their neighbours), each
+    sent in one piece and followed by silence, over a real transport: every one must be delivered promptly and intact."""
+    srv = make_server(sc, None)
+    res = {'connect': None, 'got': [], 'sizes': list(sc['sizes'])}
+    try:
+        try:
+            m = connect(srv, sc, timeout=sc.get('timeout', 3))
+        except Exception as e:
+            res['connect'] = 'exc:' + exc_name(e)
+            return res
+        res['connect'] = 'ok'
+        time.sleep(0.1)
+        res['base11'] = srv.base11
+        want = []
+        for i, size in enumerate(sc['sizes']):
+            head = '<notification xmlns="urn:ietf:params:xml:ns:netconf:notification:1.0"><eventTime>2026-01-01T00:00:%02dZ</eventTime><pad>é' % i
+            tail = '</pad></notification>'
+            k = max(0, size - len(srv.frame(head + tail)))
+            text = head + 'x' * k + tail
+            for _ in range(6):
+                d = size - len(srv.frame(text))
+                if d == 0 or k + d < 0:
+                    break
+                k += d
+                text = head + 'x' * k + tail
+            want.append(text)
+            res.setdefault('framed', []).append(len(srv.frame(text)))
+            srv.do_actions([('raw', srv.frame(text))])
+            t0 = time.time()
+            n = m.take_notification(block=True, timeout=sc.get('wait', 1.5))
+            res['got'].append({'text': None if n is None else n.notification_xml, 'dt': time.time() - t0})
+            if n is None:
+                break
+        res['want'] = want
+        time.sleep(0.05)
+        res['connected'] = m.connected
+        try:
+            m._session.close()
+        except Exception:
+            pass
+    finally:
+        srv.cleanup()
+    return res
+
+
 def session_threads():
     return [t for t in threading.enumerate() if t.name == 'session' and t.is_alive()]
 
